@@ -398,6 +398,14 @@ class Stream:
         self.lines += lines
 
 
+class _Listener:
+    def __init__(self):
+        self.n = 0
+
+    def hit(self):
+        self.n += 1
+
+
 def run_history(ctx, st, cls, args, ops, pts, record, pol=None):
     """construct, apply ops; K lines for the model; S: fresh-object oracle after every op.  Returns nothing."""
     rng = ctx.rng
@@ -409,14 +417,25 @@ def run_history(ctx, st, cls, args, ops, pts, record, pol=None):
         return
     consistent = True
     done = []
+    listener = _Listener()
+    if cls in PROFILES:
+        obj.notifier.add(listener.hit)
     for (p, v) in [(None, None)] + list(ops):
         if p is not None:
             before = observe(obj, cls, pts)
+            n0 = listener.n
             res = apply_op(obj, cls, p, v)
+            dn = listener.n - n0
             done.append((p, v))
             ctx.count('op:%s:%s' % (p, 'ok' if res == 'ok' else 'rejected'))
             if p != 'polarization':
-                st.add(['set %s %s' % (p, f2b(v))], lambda o, r=res: None if o[0] == ('ok' if r == 'ok' else 'ValueError') and r in ('ok', 'ValueError') else 'set result model=%s impl=%s' % (o[0], r),
+                def judge_set(o, r=res, dn=dn, prof=cls in PROFILES):
+                    if not (o[1] == ('ok' if r == 'ok' else 'ValueError') and r in ('ok', 'ValueError')):
+                        return 'set result model=%s impl=%s' % (o[1], r)
+                    if prof and int(o[2]) - int(o[0]) != dn:
+                        return 'notifications model=%d impl=%d' % (int(o[2]) - int(o[0]), dn)
+                    return None
+                st.add(['notified', 'set %s %s' % (p, f2b(v)), 'notified'], judge_set,
                        'history:' + cls, dict(cls=cls, args=args, ops=list(done)))
         ob = observe(obj, cls, pts)
         record['traces'] += 1
@@ -425,6 +444,10 @@ def run_history(ctx, st, cls, args, ops, pts, record, pol=None):
         # ---- S: direct oracles, no model -------------------------------------------------------------------
         rep = dict(kind='history', cls=cls, args=args, pol=pol, ops=list(done), points=pts)
         if p is not None and p != 'polarization':
+            if res == 'ok' and cls in PROFILES and dn == 0 and not isinstance(before['geom'], str) and before['geom'] != ob['geom']:
+                ctx.fail('C18:%s:set(%s)->geometry-changed-without-notify' % (cls, p),
+                         '%s.%s = %r changes generate_geometry() (%d -> %d segments) but notifier.notify() was not called, so an attached Laser keeps the old segments'
+                         % (cls, p, v, len(before['geom']), len(ob['geom'])), rep)
             if res == 'ok' and float(getattr(obj, p)) != float(v if p != 'bins' else int(v)):
                 ctx.fail('C18:%s:set(%s)->reports-other-value' % (cls, p), '%s.%s = %r accepted but reports %r' % (cls, p, v, getattr(obj, p)), rep)
             if res != 'ok' and consistent:
@@ -485,7 +508,7 @@ def histories(ctx, st, record):
             run_history(ctx, st, cls, args, ops, gen_points(rng, cls, args), record, pol)
         ctx.count('sequences:' + cls, len(seqs))
         # longer random histories
-        for _ in range(ctx.n(40, 300)):
+        for _ in range(ctx.n(40, 1200)):
             args = gen_args(rng, cls)
             state = dict(args)
             ops = []
@@ -547,7 +570,7 @@ def spectra_stream(ctx, st, record, table=None):
     kinds = {k['name']: k['binPsd'] for k in (table or {}).get('classes', [])}
     const_cmd = 'specd' if kinds.get('ConstantSpectrum') == 'constDensity' else 'specc'
     C = classes()
-    for it in range(ctx.n(600, 6000)):
+    for it in range(ctx.n(600, 16000)):
         lo = rng.choice([1059.0, 1039.9, rng.uniform(200.0, 2000.0)])
         width = rng.choice([2.0, 0.2, 10.0, rng.uniform(0.01, 50.0)])
         hi = lo + width
@@ -613,7 +636,7 @@ def spectra_stream(ctx, st, record, table=None):
 def integrals(ctx):
     """S: cross-section / volume integrals of the real energy density"""
     rng = ctx.rng
-    for it in range(ctx.n(8, 150)):
+    for it in range(ctx.n(8, 300)):
         for cls in ('ConstantBivariateGaussian', 'GaussianBeamAxisymmetric', 'TrivariateGaussian'):
             args = gen_args(rng, cls)
             obj = construct(cls, args)
@@ -626,13 +649,21 @@ def integrals(ctx):
                         hist.append((p, v))
             g = {p: float(getattr(obj, p)) for p in PARAMS[cls]}
             rep = dict(kind='integral', cls=cls, args=args, ops=hist)
+            if hist:
+                # the integral clause is judged on objects that are consistent with what they report; a stale object is
+                # the business of the history oracle (own signature per setter), so fall back to the fresh object here
+                pts = gen_points(rng, cls, g)
+                fresh = construct(cls, g, tuple(obj.get_polarization(0, 0, 0)))
+                if same_obs(observe(obj, cls, pts), observe(fresh, cls, pts), cls) is not None:
+                    ctx.count('integral:stale-object-replaced-by-fresh')
+                    obj, rep = fresh, dict(kind='integral', cls=cls, args=g, ops=[])
             if cls == 'TrivariateGaussian':
                 if it % 3 != 0 and ctx.tier == 'quick':
                     continue
                 val = volume_integral(obj, g['mean_z'], g['stddev_x'], g['stddev_y'], g['pulse_length'] * C_LIGHT)
                 want = g['pulse_energy']
                 if not close(val, want, 1e-8):
-                    sig = 'C18:TrivariateGaussian:volume-integral!=pulse_energy' + (':after-set(%s)' % ','.join(p for p, _ in hist) if hist else '')
+                    sig = 'C18:TrivariateGaussian:volume-integral!=pulse_energy'
                     ctx.fail(sig, 'volume integral %r, pulse_energy %r (reported parameters %r)' % (val, want, g), rep)
                 ctx.case(key=('int3', json.dumps(g, sort_keys=True)), sample=dict(cls=cls, params=g, integral=val, want=want) if it < 2 else None)
             else:
@@ -646,7 +677,7 @@ def integrals(ctx):
                 for z in zs:
                     val = cross_section_integral(obj, z, sx, sy)
                     if not close(val, want, 1e-8):
-                        sig = 'C18:%s:cross-section-integral!=E/(c*tau)' % cls + (':after-set(%s)' % ','.join(p for p, _ in hist) if hist else '')
+                        sig = 'C18:%s:cross-section-integral!=E/(c*tau)' % cls
                         ctx.fail(sig, 'z=%r: ∫∫ energy density = %r, pulse_energy/(c*pulse_length) = %r (reported parameters %r)' % (z, val, want, g), dict(rep, z=z))
                     ctx.case(key=('int2', cls, f2b(z), json.dumps(g, sort_keys=True)), sample=dict(cls=cls, params=g, z=z, integral=val, want=want) if it < 1 else None)
             ctx.count('integral:' + cls)
@@ -806,6 +837,14 @@ def t_phase(ctx):
         aok, ax, raw = lean.audit(comb)
     finally:
         os.remove(comb)
+    if ctx.tier == 'thorough' and good:
+        # independent re-check of the compiled theorem modules by the external kernel checker
+        import subprocess
+        r = subprocess.run(['lake', 'env', 'leanchecker'] + [m for m, _ in good] + ['Cherab.Props.C18Real'], cwd=LEAN,
+                           stdout=subprocess.PIPE, stderr=subprocess.STDOUT, text=True, timeout=1800)
+        ctx.extra['leanchecker'] = dict(modules=[m for m, _ in good] + ['Cherab.Props.C18Real'], returncode=r.returncode)
+        if r.returncode != 0:
+            ctx.broken.append(dict(kind='theorem', name='leanchecker', detail=r.stdout[-1500:]))
     for m, a, _ in MODULES:
         for t in lean.audit_targets(a):
             full = [k for k in ax if k == t or k.endswith('.' + t)]
